@@ -1157,12 +1157,14 @@ pub fn run_c19_check(tier: &str, seed: u64, workers: u64, runs_override: Option<
         "coverage": {
             "evaluations": agg.runs,
             "distinct_nontrivial": agg.nontrivial_shapes.len(),
-            "rule": "one evaluation = one shuttle execution (one seeded schedule) of a generated scenario: the real thread-safe build of the crate (sources of /repo with std::sync/std::thread redirected to shuttle), one shared Arc<Engine> or Arc<Blocker> with regex-heavy rules, 2-4 threads x 1-6 mixed queries (network, csp, cosmetic; on the blocker also set_regex_discard_policy / discard_regex / debug info), aggressive discard policy and a clock that advances on every read so cleanup, discard and recompile happen inside critical sections, with scheduling points inside RegexManager. Each concurrent answer is compared with the answer of a twin engine queried sequentially. Non-trivial: >= 2 threads and >= 1 regex-manager call; distinct = distinct (scenario seed, digest of yield/clock/probe counters of the execution).",
+            "rule": "one evaluation = one shuttle execution (one seeded schedule) of a generated scenario: the real thread-safe build of the crate (sources of /repo with std::sync/std::thread redirected to shuttle), one shared Arc<Engine> or Arc<Blocker> with regex-heavy rules, 1-3 concurrent phases of 2-4 threads x 1-6 mixed queries (network, csp, cosmetic; on the blocker also set_regex_discard_policy / discard_regex / debug info) with a tag switch or optimize() under exclusive access between phases and the rule allocations served by the seeded allocator (address reuse), aggressive or default-like discard policy and a clock that advances on every read so cleanup, discard and recompile happen inside critical sections, with scheduling points inside RegexManager. Each concurrent answer is compared with the answer of a twin engine queried sequentially. Non-trivial: >= 2 threads and >= 1 regex-manager call; distinct = distinct (scenario seed, digest of yield/clock/probe counters of the execution).",
             "samples": agg.samples,
             "exhaustive": false,
             "runs_per_hour": if wall > 0.0 { (agg.runs as f64 / wall * 3600.0) as u64 } else { 0 },
             "distinct_execution_digests": agg.states.len(),
             "schedulers": {"random": g("scheduler_random"), "pct_depth1": g("scheduler_pct1"), "pct_depth2": g("scheduler_pct2"), "pct_depth3": g("scheduler_pct3")},
+            "phases_total": g("phases"),
+            "tag_switches_or_optimize_between_concurrent_phases": g("mutations_between_phases"),
             "threads_total": g("threads"),
             "queries_total": g("queries"),
             "shared_engine_runs": g("shared_engine_runs"),
